@@ -377,11 +377,11 @@ static std::vector<std::string> hist_gen(const GenArgs &ga) {
     } else if (op == "run") {
       static const char *modes[] = {"exec", "exec", "direct", "direct", "emulate", "backup"};
       l += strf(" p=%d mode=%s n=%d ds=%llu", (int)pr.below(1000), modes[pr.below(6)],
-                pr.chance(1, 4) ? (pr.chance(1, 4) ? -1 : 0) : 1 + (int)pr.below(100), (unsigned long long)(dr.next() >> 20));   // n=0: seeded length, n=-1: an empty call
+                pr.chance(1, 4) ? ((P == "C06" && pr.chance(1, 4)) ? -1 : 0) : 1 + (int)pr.below(100), (unsigned long long)(dr.next() >> 20));   // n=0: seeded length, n=-1: an empty call (C06 only: its oracle tells a pure-function native defect from a fallback defect)
     } else if (op == "runc") {
       static const char *modes[] = {"exec", "exec", "direct", "direct", "emulate", "backup"};
       l += strf(" c=%d mode=%s n=%d ds=%llu", (int)pr.below(1000), modes[pr.below(6)],
-                pr.chance(1, 4) ? (pr.chance(1, 4) ? -1 : 0) : 1 + (int)pr.below(100), (unsigned long long)(dr.next() >> 20));
+                pr.chance(1, 4) ? ((P == "C06" && pr.chance(1, 4)) ? -1 : 0) : 1 + (int)pr.below(100), (unsigned long long)(dr.next() >> 20));
     } else if (op == "debug") {
       l += strf(" level=%d", (int)pr.below(6));
     } else if (op == "policy") {
